@@ -783,7 +783,9 @@ func runModels(f lib.Flags, res *lib.Result) {
 			if q < 6 {
 				st = 6 + 3*q // small cases first: the first violation per signature is the replay
 			}
-			runModelSeq(modelSeq{Kind: "model", Model: name, Seed: f.Seed, Seq: q, Steps: st}, mon)
+			if ms := (modelSeq{Kind: "model", Model: name, Seed: f.Seed, Seq: q, Steps: st}); begin(mon, name, fmt.Sprint(q), ms) {
+				runModelSeq(ms, mon)
+			}
 		}
 		wall[name] = float64(time.Since(t0).Milliseconds()) / 1000
 	}
